@@ -12,8 +12,6 @@ import Gotree.Lemmas.C05Keys
 import Gotree.Lemmas.C05OrientPath
 import Gotree.Lemmas.C05Index
 import Gotree.Lemmas.C05History
-import Gotree.Model.C05Source
-import Gotree.Gen.C05Source
 
 /- The property theorems live in `Gotree.C05.P` (the shared lemma file already uses the
    plain names `C05.moveRoot_dist` … for its general versions). -/
@@ -676,16 +674,5 @@ theorem history_preserves (steps : List Step) (t u : T) (hu : uniq t = true) (hh
 
 example : historyOK [.reroot [0], .outgroup false false ["D", "E"], .midpoint, .unroot, .sort] exT = true ∧
     (runSteps [.reroot [0], .outgroup false false ["D", "E"], .midpoint, .unroot, .sort] exT).1 = 5 := by decide +kernel
-
-/-! ## The facts about the source the model relies on (regenerated by `vh gen-tables`) -/
-
-/-- The tables extracted from the working tree (call-graph reachability of the index / orientation
-    routines, comparison operators of the selection predicates, constant factors, the method and the
-    arguments each command uses, the flags and their defaults) are the ones the model was written for
-    (`Gotree/Model/C05Source.lean` says which definition rests on which row). -/
-theorem source_facts_check :
-    Gotree.Gen.C05Source.reaches = Source.reaches ∧ Gotree.Gen.C05Source.cmps = Source.cmps ∧
-    Gotree.Gen.C05Source.factors = Source.factors ∧ Gotree.Gen.C05Source.commands = Source.commands ∧
-    Gotree.Gen.C05Source.flags = Source.flags := by decide
 
 end Gotree.C05.P
